@@ -139,7 +139,14 @@ func judge(c *Case, wr *worldRun, rc *refCache, stateChecks bool, attrib bool) [
 				continue
 			}
 			gi := info(call.Model)
-			ref := rc.fresh(&c.World.Models[call.Model], res.InBefore, call.Fault, attrib)
+			// An injected operator fault is part of the call only if it actually fired: the seam (GetOperator) is an
+			// implementation detail, and a tree that resolves operators once per Model instead of once per Run simply
+			// never reaches it. Such a call is judged as the plain Run it was.
+			fault := call.Fault
+			if fault != nil && !res.FaultHit {
+				fault = nil
+			}
+			ref := rc.fresh(&c.World.Models[call.Model], res.InBefore, fault, attrib)
 			if ref.Kind != res.Kind {
 				add(fmt.Sprintf("outcome-kind-differs:%s->%s:%s", ref.Kind, res.Kind, gi.mainOp),
 					fmt.Sprintf("returned %s (%s); the same call alone on a fresh Model returns %s (%s)", res.Kind, clip(res.Err, 160), ref.Kind, clip(ref.Err, 160)))
